@@ -10,7 +10,7 @@ if ! git -C "$WT" apply "$PATCH" 2>/dev/null; then
   if ! git -C "$WT" apply --3way "$PATCH" >/dev/null 2>&1; then echo "PATCH-DOES-NOT-APPLY $PATCH"; git -C /repo worktree remove --force "$WT"; exit 3; fi
 fi
 cd /verif
-VERIF_REPO="$WT" VERIF_EVIDENCE_DIR="/tmp/mut_ev_$$" ./vcheck "$PROP" "$@"
+VERIF_TIMEOUT_SCALE="${VERIF_TIMEOUT_SCALE:-1}" VERIF_REPO="$WT" VERIF_EVIDENCE_DIR="/tmp/mut_ev_$$" ./vcheck "$PROP" "$@"
 rc=$?
 git -C /repo worktree remove --force "$WT"; rm -rf "/tmp/mut_ev_$$"
 echo "mutant exit=$rc"
